@@ -189,3 +189,46 @@ Proof.
   rewrite <- (sumQ_zero cols). apply sumQ_ext_in. intros a Ha. rewrite (Hz a Ha). ring.
 Qed.
 End WLS.
+
+(* fixed parameters: the part of a form that belongs to fixed unknowns moves to the observation *)
+Section Fixed.
+Context {P : Type}.
+Variable fx : P -> bool.
+Definition free_part (f : form (P:=P)) : form := filter (fun ac => negb (fx (fst ac))) f.
+Definition fixed_part (f : form (P:=P)) : form := filter (fun ac => fx (fst ac)) f.
+Lemma eval_split (f : form (P:=P)) p : eval f p == eval (free_part f) p + eval (fixed_part f) p.
+Proof.
+  unfold eval, free_part, fixed_part. induction f as [|[a c] f IH]; simpl; [ring|].
+  destruct (fx a); simpl; rewrite IH; ring.
+Qed.
+(* T27: the residual of the reduced row (fixed part subtracted from the observation) at the free parameters equals the
+   residual of the original row at the full parameter vector, whatever the free parameters are *)
+Definition reduce_row (pfix : P -> Q) (w' : Q) (r : row (P:=P)) : row (P:=P) :=
+  {| rform := free_part (rform r); robs := robs r - eval (fixed_part (rform r)) pfix; rwgt := w' |}.
+Lemma eval_agree (f : form (P:=P)) p q : (forall ac, In ac f -> p (fst ac) == q (fst ac)) -> eval f p == eval f q.
+Proof. intros H. unfold eval. apply sumQ_ext_in. intros [a c] Hin. simpl. rewrite (H _ Hin). reflexivity. Qed.
+Lemma reduced_residual pfix w' (r : row (P:=P)) p : (forall a, fx a = true -> p a == pfix a) ->
+  resid (reduce_row pfix w' r) p == resid r p.
+Proof.
+  intros H. unfold resid, reduce_row. simpl. rewrite (eval_split (rform r) p).
+  assert (E: eval (fixed_part (rform r)) p == eval (fixed_part (rform r)) pfix).
+  { apply eval_agree. intros [a c] Hin. simpl. apply H. unfold fixed_part in Hin. apply filter_In in Hin. exact (proj2 Hin). }
+  rewrite E. ring.
+Qed.
+(* T28: the inflated variance 1/w' = 1/w + sum c^2 var_fixed is positive whenever the measurement variance is positive and
+   the supplied variances are non-negative: no negative weight, no division by zero *)
+Definition var_add (f : form (P:=P)) (vfix : P -> Q) : Q := sumQ (fun ac => snd ac * snd ac * vfix (fst ac)) (fixed_part f).
+Lemma var_add_nonneg (f : form (P:=P)) vfix : (forall a, 0 <= vfix a) -> 0 <= var_add f vfix.
+Proof. intros H. apply sumQ_nonneg. intros [a c] _. simpl. pose proof (sq_nonneg c). specialize (H a). nra. Qed.
+Lemma inflated_weight_positive w (f : form (P:=P)) vfix : 0 < w -> (forall a, 0 <= vfix a) ->
+  0 < 1 / (1 / w + var_add f vfix) /\ 1 / (1 / w + var_add f vfix) <= w.
+Proof.
+  intros Hw Hv. pose proof (var_add_nonneg f vfix Hv) as Hs.
+  assert (Hiw: 0 < 1 / w) by (unfold Qdiv; rewrite Qmult_1_l; apply Qinv_lt_0_compat; exact Hw).
+  set (s := var_add f vfix) in *.
+  assert (Hd: 0 < 1 / w + s) by lra.
+  split.
+  - unfold Qdiv at 1. rewrite Qmult_1_l. apply Qinv_lt_0_compat. exact Hd.
+  - apply Qle_shift_div_r; [exact Hd|]. assert (E: w * (1 / w + s) == 1 + w * s) by (field; lra). rewrite E. nra.
+Qed.
+End Fixed.
